@@ -23,6 +23,7 @@ use crate::sim::{SimFactory, SimNet};
 pub const CA_CERT: &[u8] = include_bytes!("/repo/tests/keychain/localhost/ca.cert");
 pub const SERVER_CERT: &[u8] = include_bytes!("/repo/tests/keychain/localhost/server.cert");
 pub const SERVER_KEY: &[u8] = include_bytes!("/repo/tests/keychain/localhost/server.key");
+pub const OTHER_CA_CERT: &[u8] = include_bytes!("/repo/tests/keychain/root/rootCA-ECC.crt");
 
 pub fn server_addr() -> SocketAddr {
     "10.0.0.1:4433".parse().unwrap()
@@ -94,6 +95,25 @@ pub struct WorldCfg {
     /// None = builder default (no explicit qlog call)
     pub with_qlog: bool,
     pub mtu: usize,
+    /// the server's auther refuses every client at the ClientHello (CONNECTION_REFUSED in an Initial packet)
+    pub refuse_clients: bool,
+    /// the server presents its certificate this many times in the chain (a large first flight)
+    pub cert_repeat: usize,
+    /// number of extra ALPN entries the client offers (a large ClientHello, i.e. a large Initial packet)
+    pub client_alpn_pad: usize,
+    /// the client trusts an unrelated CA: it rejects the server's certificate with a TLS alert
+    pub client_wrong_ca: bool,
+}
+
+pub struct RefuseAll;
+
+impl AuthClient for RefuseAll {
+    fn verify_client_name(&self, _: &LocalAgent, _: Option<&str>) -> ClientNameVerifyResult {
+        ClientNameVerifyResult::Refuse("refused by the scenario".to_owned())
+    }
+    fn verify_client_agent(&self, _: &LocalAgent, _: &RemoteAgent) -> ClientAgentVerifyResult {
+        ClientAgentVerifyResult::Accept
+    }
 }
 
 impl Default for WorldCfg {
@@ -104,6 +124,10 @@ impl Default for WorldCfg {
             log: LogMode::Capture,
             with_qlog: true,
             mtu: 1500,
+            refuse_clients: false,
+            cert_repeat: 1,
+            client_alpn_pad: 0,
+            client_wrong_ca: false,
         }
     }
 }
@@ -142,11 +166,19 @@ impl World {
         if cfg.with_qlog {
             lb = lb.with_qlog(qlogger(cfg.log, &events));
         }
+        if cfg.refuse_clients {
+            lb = lb.with_client_auther(RefuseAll);
+        }
+        if cfg.client_alpn_pad > 0 {
+            // the server must know one of the offered protocols, otherwise its TLS stack fails the handshake
+            lb = lb.with_alpns([b"verif-padding-protocol-0000".to_vec()]);
+        }
+        let chain: Vec<u8> = SERVER_CERT.repeat(cfg.cert_repeat.max(1));
         let listeners = lb.listen(128).expect("listen");
         listeners
             .add_server(
                 "localhost",
-                SERVER_CERT,
+                chain.as_slice(),
                 SERVER_KEY,
                 [BindUri::from(format!("inet://{}", server_addr()).as_str())],
                 None,
@@ -155,7 +187,8 @@ impl World {
             .expect("add_server");
 
         let mut roots = rustls::RootCertStore::empty();
-        roots.add_parsable_certificates(CertificateDer::pem_slice_iter(CA_CERT).map(Result::unwrap));
+        let ca = if cfg.client_wrong_ca { OTHER_CA_CERT } else { CA_CERT };
+        roots.add_parsable_certificates(CertificateDer::pem_slice_iter(ca).map(Result::unwrap));
         let mut cb = QuicClient::builder()
             .with_router(router.clone())
             .with_iface_factory(factory.clone())
@@ -166,6 +199,9 @@ impl World {
             .without_cert();
         if cfg.with_qlog {
             cb = cb.with_qlog(qlogger(cfg.log, &events));
+        }
+        if cfg.client_alpn_pad > 0 {
+            cb = cb.with_alpns((0..cfg.client_alpn_pad).map(|i| format!("verif-padding-protocol-{i:04}").into_bytes()));
         }
         let client = cb
             .bind([BindUri::from(format!("inet://{}", client_addr()).as_str())])
